@@ -6,6 +6,7 @@ import (
 
 	"github.com/jamespfennell/gtfs"
 	gtfsrt "github.com/jamespfennell/gtfs/proto"
+	"google.golang.org/protobuf/proto"
 
 	"verifharness/canon"
 	"verifharness/core"
@@ -480,5 +481,43 @@ func runC12(c *core.Ctx) {
 	}
 	if c.WantSample() && kind == "random" {
 		c.Sample(map[string]any{"alert": prototextOf(m.Entity[0]), "parsed_informed_entities": canon.Dump(rt.Alerts[0].InformedEntities, nil)})
+	}
+	// explicit defaults inside trip descriptors: trip_id / route_id / start_time / start_date explicitly set to the empty
+	// string say the same as the field being absent; the same expectations must hold (single-selector cases: every absent
+	// field made explicit; other kinds: a random half of them)
+	if kind == "sized-alert" {
+		return
+	}
+	m2 := proto.Clone(m).(*gtfsrt.FeedMessage)
+	changed := 0
+	for _, e := range m2.Entity {
+		for _, sel := range e.Alert.InformedEntity {
+			d := sel.Trip
+			if d == nil {
+				continue
+			}
+			for _, f := range []**string{&d.TripId, &d.RouteId, &d.StartTime, &d.StartDate} {
+				if *f == nil && (kind == "single-selector" || c.R.Bool()) {
+					*f = rgen.S("")
+					changed++
+				}
+			}
+		}
+	}
+	if changed == 0 {
+		return
+	}
+	c.Feature("explicitly-empty-trip-descriptor-fields")
+	rt2, err := gtfs.ParseRealtime(rgen.Marshal(m2), &gtfs.ParseRealtimeOptions{})
+	c.Eval(1)
+	if err != nil || len(rt2.Alerts) != len(m2.Entity) {
+		c.Violationf("C12|explicit-empty|parse-error-or-alert-count", map[string]any{"message": prototextOf(m2)}, "message with explicitly empty trip descriptor fields: err=%v", err)
+		return
+	}
+	for i, ex := range expects {
+		i := i
+		c12Check(c, kind+"+explicit-empty", &rt2.Alerts[i], rt2, ex, func() any {
+			return map[string]any{"alert": prototextOf(m2.Entity[i]), "parsed_informed_entities": canon.Dump(rt2.Alerts[i].InformedEntities, nil)}
+		})
 	}
 }
